@@ -179,7 +179,8 @@ func c15tExecN(t *testing.T, scn c15tScenario, ch *mc.Chooser) (mc.Result, [2]in
 		ending := false
 		plan := srv.PlanRef()
 		plan.OnRequest = func(r *redisd.Req) {
-			if r.Name() != "eval" {
+			script, isEval := c15EvalScript(srv, r)
+			if !isEval {
 				return
 			}
 			mu.Lock()
@@ -190,7 +191,7 @@ func c15tExecN(t *testing.T, scn c15tScenario, ch *mc.Chooser) (mc.Result, [2]in
 				return
 			}
 			nreq++
-			isCampaign := strings.Contains(string(r.Argv[1]), "EXPIRE")
+			isCampaign := strings.Contains(script, "EXPIRE")
 			kind := "campaign/renew"
 			if !isCampaign {
 				kind = "resign"
